@@ -168,6 +168,7 @@ class Index:
         self.enums["@methods"] = methods
         # private attributes are identified by role and renamed to the names the rules use (see core/canon.py)
         from . import canon
+        self.param_records = canon.open_parameter_records(self)
         self.kwdicts = canon.expand_kwargs_dicts(self)
         self.matches = canon.desugar_matches(self)
         self.walrus = canon.desugar_walrus(self)
@@ -177,6 +178,7 @@ class Index:
         self.yieldfroms = canon.desugar_yield_from(self)
         self.enumerates = canon.desugar_enumerate_idioms(self)
         self.replicated = canon.desugar_replicated_unpack(self)
+        self.unrolled_tables = canon.unroll_literal_tables(self)
         self.memos = canon.inline_local_memos(self)
         self.counters = canon.desugar_counters(self)
         self.fused = canon.fuse_record_lists(self)
